@@ -34,7 +34,7 @@ Dirs == {"up", "down"}
 
 VARIABLES l, wr, rd, flags
 tvars == <<vars, l, wr, rd, flags>>
-segVars == <<csend, up, outQ, down, rcvU, rcvD, ndrop>>
+segVars == <<csend, up, outQ, down, held, stall, nstall, rcvU, rcvD, ndrop>>
 
 e == TraceLog[l]
 Is(name) == l <= Len(TraceLog) /\ e.ev = name
@@ -56,7 +56,7 @@ TReset ==
   /\ wr' = [s \in Sessions |-> [d \in Dirs |-> 0]] /\ rd' = [s \in Sessions |-> [d \in Dirs |-> 0]]
   /\ flags' = {} /\ UNCHANGED segVars
 
-Skipped == {"app.mismatch", "srv.flood", "srv.attached", "srv.session", "srv.accept", "srv.stream", "app.done", "stall", "car.refused", "ses.over",
+Skipped == {"app.stall", "app.resume", "app.mismatch", "srv.flood", "srv.attached", "srv.session", "srv.accept", "srv.stream", "app.done", "stall", "car.refused", "ses.over",
             "car.srvclosed", "car.notclosed", "sys.note", "dial.popped", "prx.open", "prx.kill", "brk.offer", "brk.drop"}
 TSkip == l <= Len(TraceLog) /\ e.ev \in Skipped /\ Step /\ UNCHANGED <<vars, wr, rd, flags>>
 
@@ -155,8 +155,20 @@ TEnd ==
                 THEN flags \cup {"stream reported complete but bytes are missing"} ELSE flags
   /\ UNCHANGED <<vars, wr, rd>>
 
+(* cli.pkt / srv.pkt: packets read from the carrier by the client's redial layer
+   (hook ex.read) / by the server's handler (hook srv.in); known = the driver
+   found the very same packet among those the other end wrote towards the
+   carrier (hooks srv.out / ex.write).  The carrier is a reliable ordered byte
+   stream and the framing restarts on every carrier, so every packet read is
+   one that the peer wrote: anything else is a chunk nobody wrote (framing
+   lost, bytes dropped or mixed below the packet layer). *)
+TPkt ==
+  /\ (Is("cli.pkt") \/ Is("srv.pkt")) /\ Step
+  /\ flags' = IF e.known THEN flags ELSE flags \cup {"a packet was read from the carrier that the peer never wrote"}
+  /\ UNCHANGED <<vars, wr, rd>>
+
 TNext ==
-  \/ TReset \/ TSkip \/ TSesStart \/ TCarOpen \/ TCarHello \/ TFault \/ TCarEnd
+  \/ TPkt \/ TReset \/ TSkip \/ TSesStart \/ TCarOpen \/ TCarHello \/ TFault \/ TCarEnd
   \/ TAttach \/ TDetach \/ TPacket \/ TAccept \/ TRead \/ TDead \/ TAppErr \/ TEnd
 TSpec == TInit /\ [][TNext]_tvars
 
